@@ -210,7 +210,7 @@ Qed.
 
 (* Client.auth: built-in mechanisms only, host not a localhost name, type not *-NOENC *)
 Lemma satx_auth_step : forall fuel cfg is_enc,
-  c_custom cfg = None -> is_localhost (c_host cfg) = false -> noenc_type (c_auth cfg) = false ->
+  c_custom cfg = None -> Dial.is_localhost (c_host cfg) = false -> noenc_type (c_auth cfg) = false ->
   satx Gnotls Pq _ (fun _ => True) (auth_step fuel cfg is_enc).
 Proof.
   intros fuel cfg is_enc Hc Hl Hn. unfold auth_step. rewrite Hc, Hl.
@@ -297,7 +297,7 @@ Lemma np_starttls : nonpass VStartTLS = true. Proof. reflexivity. Qed.
 Lemma np_quit : nonpass VQuit = true. Proof. reflexivity. Qed.
 
 Lemma dial_rest_password : forall fuel cfg w r w',
-  c_ssl cfg = false -> c_custom cfg = None -> is_localhost (c_host cfg) = false -> noenc_type (c_auth cfg) = false ->
+  c_ssl cfg = false -> c_custom cfg = None -> Dial.is_localhost (c_host cfg) = false -> noenc_type (c_auth cfg) = false ->
   opened (w_conn w) = true -> sc_tls (w_cs w) = false -> AllowedInv nonpass w ->
   run (dial_rest fuel cfg) w = (r, w') ->
   AllowedInv nonpass w'.
@@ -333,7 +333,7 @@ Proof.
 Qed.
 
 Lemma dial_password : forall fuel cfg w r w',
-  c_custom cfg = None -> is_localhost (c_host cfg) = false -> noenc_type (c_auth cfg) = false ->
+  c_custom cfg = None -> Dial.is_localhost (c_host cfg) = false -> noenc_type (c_auth cfg) = false ->
   w_conn w = conn0 -> sc_tls (w_cs w) = false -> AllowedInv nonpass w ->
   run (dial fuel cfg) w = (r, w') ->
   AllowedInv nonpass w'.
@@ -393,7 +393,7 @@ Proof. intros. unfold close_client, update_deadline. sat_tac. Qed.
 #[export] Hint Resolve sat_np_send_batch sat_np_close_client : satdb.
 
 Lemma dial_and_send_password : forall fuel cfg msgs w,
-  c_custom cfg = None -> is_localhost (c_host cfg) = false -> noenc_type (c_auth cfg) = false ->
+  c_custom cfg = None -> Dial.is_localhost (c_host cfg) = false -> noenc_type (c_auth cfg) = false ->
   w_conn w = conn0 -> sc_tls (w_cs w) = false -> AllowedInv nonpass w ->
   AllowedInv nonpass (snd (run (dial_and_send fuel cfg msgs) w)).
 Proof.
@@ -413,11 +413,11 @@ Lemma C07_password_confined_l : forall fuel cfg (s : srv) v,
   c_custom cfg = None ->
   In v (clear_cmds (w_trace (snd (run (dial fuel cfg) (world0 s))))) ->
   reveals_password v = true ->
-  noenc_type (c_auth cfg) = true \/ is_localhost (c_host cfg) = true.
+  noenc_type (c_auth cfg) = true \/ Dial.is_localhost (c_host cfg) = true.
 Proof.
   intros fuel cfg s v Hc Hin Hr.
   destruct (noenc_type (c_auth cfg)) eqn:Hn; [ left; reflexivity | ].
-  destruct (is_localhost (c_host cfg)) eqn:Hl; [ right; reflexivity | ].
+  destruct (Dial.is_localhost (c_host cfg)) eqn:Hl; [ right; reflexivity | ].
   exfalso.
   destruct (run (dial fuel cfg) (world0 s)) as [r w'] eqn:E.
   assert (HA : AllowedInv nonpass (world0 s)) by (intros x Hx; simpl in Hx; contradiction).
@@ -429,13 +429,44 @@ Lemma C07_password_confined_send_l : forall fuel cfg msgs (s : srv) v,
   c_custom cfg = None ->
   In v (clear_cmds (w_trace (snd (run (dial_and_send fuel cfg msgs) (world0 s))))) ->
   reveals_password v = true ->
-  noenc_type (c_auth cfg) = true \/ is_localhost (c_host cfg) = true.
+  noenc_type (c_auth cfg) = true \/ Dial.is_localhost (c_host cfg) = true.
 Proof.
   intros fuel cfg msgs s v Hc Hin Hr.
   destruct (noenc_type (c_auth cfg)) eqn:Hn; [ left; reflexivity | ].
-  destruct (is_localhost (c_host cfg)) eqn:Hl; [ right; reflexivity | ].
+  destruct (Dial.is_localhost (c_host cfg)) eqn:Hl; [ right; reflexivity | ].
   exfalso.
   assert (HA : AllowedInv nonpass (world0 s)) by (intros x Hx; simpl in Hx; contradiction).
   pose proof (dial_and_send_password fuel cfg msgs (world0 s) Hc Hl Hn eq_refl eq_refl HA v Hin) as X.
   unfold nonpass in X. rewrite Hr in X. discriminate.
+Qed.
+
+(* ------------------------------------------------------------------------------------------------ *)
+(* T1: smtp.isLocalhost, as translated from the AST, is exactly "the name is one of the three literals" *)
+Lemma gen_bytes_eqb_eq : forall a b, Gen.gen_bytes_eqb a b = bytes_eqb a b.
+Proof. induction a as [ | x a IH]; destruct b as [ | y b]; simpl; try reflexivity; try (rewrite IH; reflexivity). Qed.
+
+Lemma source_is_localhost_l : forall n,
+  Dial.is_localhost n = existsb (bytes_eqb n) [bs "localhost"; bs "127.0.0.1"; bs "::1"].
+Proof.
+  intros n. unfold Dial.is_localhost, Gen.is_localhost.
+  repeat match goal with |- context [Gen.gen_bytes_eqb n ?l] => rewrite (gen_bytes_eqb_eq n l) end.
+  simpl.
+  repeat match goal with |- context [bytes_eqb n ?l] => destruct (bytes_eqb n l) end; reflexivity.
+Qed.
+
+(* the exemption of C07_password_confined in terms of the host string itself *)
+Lemma C07_password_confined_names_l : forall fuel cfg (s : srv) v,
+  c_custom cfg = None ->
+  In v (clear_cmds (w_trace (snd (run (dial fuel cfg) (world0 s))))) ->
+  reveals_password v = true ->
+  noenc_type (c_auth cfg) = true \/
+  c_host cfg = bs "localhost" \/ c_host cfg = bs "127.0.0.1" \/ c_host cfg = bs "::1".
+Proof.
+  intros fuel cfg s v Hc Hin Hr.
+  destruct (C07_password_confined_l fuel cfg s v Hc Hin Hr) as [H | H]; [ left; exact H | right ].
+  rewrite source_is_localhost_l in H. simpl in H.
+  assert (E : forall a b, bytes_eqb a b = true -> a = b).
+  { induction a as [ | x a IH]; destruct b as [ | y b]; simpl; intros X; try discriminate; auto.
+    apply andb_true_iff in X. destruct X as [X1 X2]. apply N.eqb_eq in X1. subst. f_equal. auto. }
+  repeat (apply orb_true_iff in H; destruct H as [H | H]); try discriminate; apply E in H; auto.
 Qed.
